@@ -293,6 +293,30 @@ func c07Jobs(x *mon.Ctx, base *world.World) []*world.Case {
 		w.Qe.Levels = ls
 		emit(w, "level-without-status", fmt.Sprint(i), "reject")
 	}
+	// an incomplete signed identity (its matching level has no status, or it has no isvprodid) served together with an unsigned
+	// member that supplies what is missing: only what is signed counts
+	for name, mod := range map[string]func(w *world.World){
+		"level-status": func(w *world.World) {
+			w.Qe.Levels = []world.IsvLevel{{Isv: uint32(base.P.QeIsvSvn), NoStatus: true}}
+		},
+		"all-level-statuses": func(w *world.World) {
+			for i := range w.Qe.Levels {
+				w.Qe.Levels[i].NoStatus = true
+			}
+		},
+	} {
+		w := base.Clone()
+		mod(w)
+		signedRaw, decoyRaw := w.Qe.JSON(), base.Qe.JSON()
+		for arr, body := range decorations("enclaveIdentity", signedRaw, sigHex(w, signedRaw), decoyRaw) {
+			w2 := w.Clone()
+			w2.QeBody = body
+			c := w2.Case(world.LColl, "unsigned-member-completes-signed-identity", name+"/"+arr)
+			c.Expect, c.Twin = "reject", "twin"
+			c.Form = mon.Forms[len(out)%4]
+			out = append(out, c)
+		}
+	}
 	// a caller-built message whose QE ISVSVN differs from the signed one only above bit 15 (the wire format has 16 bits): the
 	// level must be selected by what the PCK key signed
 	for _, k := range []uint32{1, 2, 0xffff} {
@@ -359,12 +383,27 @@ func c07(x *mon.Ctx) {
 			x.Sample(sampleOf(c, out, v))
 		}
 	})
+	// the level lists once more with the library logging at verbosity 2 (every log argument is evaluated): same verdicts
+	x.AtVerbosity(2, func() {
+		var vj []*world.Case
+		for _, j := range jobs {
+			if strings.HasPrefix(j.Class, "levels-1") || strings.HasPrefix(j.Class, "levels-2") || j.Class == "level-without-status" || j.Class == "isvsvn-byte-order" {
+				c := *j
+				c.Class = "verbose/" + j.Class
+				c.ShadowSkip = true
+				vj = append(vj, &c)
+			}
+		}
+		x.Each(len(vj), func(i int) { check(x, i, vj[i]) })
+	})
+	x.Require("verbose/levels-2", 40, 380, 441)
 	x.Require("miscselect-bit-covered-by-mask", 0, 32, 32)
 	x.Require("miscselect-bit-hidden-by-mask", 32, 0, 32)
 	x.Require("attributes-bit-covered-by-mask", 0, 128, 128)
 	x.Require("attributes-bit-hidden-by-mask", 128, 0, 128)
 	x.Require("mrsigner-bit", 0, 256, 256)
 	x.Require("level-without-status", 0, 6, 6)
+	x.Require("unsigned-member-completes-signed-identity", 0, 30, 30)
 	x.Require("message-isvsvn-wider-than-signed", 0, 6, 6)
 	x.Require("levels-1", 2, 19, 21)
 	x.Require("levels-2", 40, 380, 441)
